@@ -16,7 +16,11 @@ def console_steps(rng, gen: int, inst: dict, n: int, t0: float, spacing: float =
         k = rng.choice(kinds)
         if k == "zone" and not zones:
             k = "ac"
-        if k == "ac":
+        if k == "ac_error":
+            # error code toggles: episodes begin and end
+            ac = rng.choice(acs)
+            tl.append({"at": t, "op": "console.set", "entity": ["ac", ac], "fields": {"error": rng.choice([0, 0, 7, 0x1234])}, "only": rng.random() < 0.7})
+        elif k == "ac":
             full = G.ac_state(rng, gen)
             fields = full if rng.random() < 0.4 else {f: full[f] for f in rng.sample(sorted(full), rng.randint(1, 3))}
             tl.append({"at": t, "op": "console.set", "entity": ["ac", rng.choice(acs)], "fields": fields, "only": rng.random() < 0.7})
